@@ -12,6 +12,7 @@
 package main
 
 import (
+	"bufio"
 	"bytes"
 	"encoding/json"
 	"fmt"
@@ -193,10 +194,22 @@ type shared struct {
 	encoders map[string]yqlib.Encoder
 	// string evaluators are objects meant to be kept and called again
 	stringEvals map[int]yqlib.StringEvaluator
+	printers    map[string]*pooledPrinter
 }
 
+// pooledPrinter: a printer kept across evaluations. The buffered writer is the caller's and is new for
+// every evaluation (what a failed evaluation left unflushed is dropped, as with a printer of its own).
+type pooledPrinter struct {
+	p  yqlib.Printer
+	pw *poolWriter
+}
+
+type poolWriter struct{ bw *bufio.Writer }
+
+func (w *poolWriter) GetWriter(_ *yqlib.CandidateNode) (*bufio.Writer, error) { return w.bw, nil }
+
 func newShared() *shared {
-	return &shared{trees: map[string]*yqlib.ExpressionNode{}, decoders: map[string]yqlib.Decoder{}, encoders: map[string]yqlib.Encoder{}, stringEvals: map[int]yqlib.StringEvaluator{}}
+	return &shared{trees: map[string]*yqlib.ExpressionNode{}, decoders: map[string]yqlib.Decoder{}, encoders: map[string]yqlib.Encoder{}, stringEvals: map[int]yqlib.StringEvaluator{}, printers: map[string]*pooledPrinter{}}
 }
 
 // taskReader delivers the job's input in the job's chunk schedule and yields
@@ -293,6 +306,27 @@ func runJob(job *sim.LibJob, sh *shared) (out string, errText string) {
 	}
 	reader := &taskReader{data: job.Input, job: job}
 	writer := &taskWriter{}
+	newPrinter := func() yqlib.Printer {
+		if sh != nil && job.SharePrinter {
+			key := job.OutFmt + "#" + strconv.Itoa(job.EncSlot) + "#" + strconv.FormatBool(job.NulSep)
+			e := sh.printers[key]
+			if e == nil {
+				e = &pooledPrinter{pw: &poolWriter{}}
+				e.p = yqlib.NewPrinter(enc, e.pw)
+				if job.NulSep {
+					e.p.SetNulSepOutput(true)
+				}
+				sh.printers[key] = e
+			}
+			e.pw.bw = bufio.NewWriter(writer)
+			return e.p
+		}
+		p := yqlib.NewPrinter(enc, yqlib.NewSinglePrinterWriter(writer))
+		if job.NulSep {
+			p.SetNulSepOutput(true)
+		}
+		return p
+	}
 	switch job.API {
 	case "parse":
 		_, err := yqlib.ExpressionParser.ParseExpression(job.Expr)
@@ -305,7 +339,7 @@ func runJob(job *sim.LibJob, sh *shared) (out string, errText string) {
 		if err != nil {
 			return "", err.Error()
 		}
-		printer := yqlib.NewPrinter(enc, yqlib.NewSinglePrinterWriter(writer))
+		printer := newPrinter()
 		ev := yqlib.NewStreamEvaluator()
 		if _, err := ev.Evaluate("input", reader, node, printer, dec); err != nil {
 			return writer.buf.String(), err.Error()
@@ -321,7 +355,7 @@ func runJob(job *sim.LibJob, sh *shared) (out string, errText string) {
 		if err != nil {
 			return "", err.Error()
 		}
-		printer := yqlib.NewPrinter(enc, yqlib.NewSinglePrinterWriter(writer))
+		printer := newPrinter()
 		if err := printer.PrintResults(results); err != nil {
 			return writer.buf.String(), err.Error()
 		}
